@@ -144,27 +144,83 @@ class Dumper(object):
     return out
 
 
+def _inst_vals(B):
+  return [z3.IntVal(v) for v in range(-1, B + 1)]
+
+
+def bounded_instances(e, B, positive=True, depth=0):
+  """Finite instantiation of universally quantified Int variables over [-1, B] (for
+  counter-model *search* only: the result is weaker than e, so a model must be validated
+  by replaying it on the real code)."""
+  if depth > 6:
+    return e if positive else z3.Not(e)
+  if z3.is_quantifier(e):
+    univ = e.is_forall()
+    if (univ and positive) or ((not univ) and (not positive)):
+      n = e.num_vars()
+      if all(e.var_sort(i) == I for i in range(n)) and n <= 2:
+        import itertools
+        outs = []
+        for combo in itertools.product(_inst_vals(B), repeat=n):
+          # de Bruijn: var 0 is the innermost/last declared
+          body = z3.substitute_vars(e.body(), *reversed(combo))
+          outs.append(bounded_instances(body, B, positive, depth + 1))
+        return z3.And(*outs) if positive else z3.And(*outs)
+    return e if positive else z3.Not(e)
+  if z3.is_and(e):
+    parts = [bounded_instances(c, B, positive, depth) for c in e.children()]
+    return z3.And(*parts) if positive else z3.Or(*parts)
+  if z3.is_or(e):
+    parts = [bounded_instances(c, B, positive, depth) for c in e.children()]
+    return z3.Or(*parts) if positive else z3.And(*parts)
+  if z3.is_implies(e):
+    a, b = e.children()
+    if positive:
+      return z3.Or(bounded_instances(a, B, False, depth), bounded_instances(b, B, True, depth))
+    return z3.And(bounded_instances(a, B, True, depth), bounded_instances(b, B, False, depth))
+  if z3.is_not(e):
+    return bounded_instances(e.children()[0], B, not positive, depth)
+  return e if positive else z3.Not(e)
+
+
+def find_model(eng, ob, B=9, max_len=6):
+  """-> (model or None, text).  First the exact query, then bounded instantiation."""
+  text = ''
+  s = z3.Solver()
+  s.set('timeout', 15000)
+  s.add(*ob.hyps)
+  s.add(z3.Not(ob.goal))
+  entry = eng.old_stack[0][0] if eng.old_stack else {}
+  small = []
+  for key, a in entry.items():
+    if key.endswith('.len') and key != '$alloc':
+      for v in range(0, B + 1):
+        small.append(z3.Select(a, z3.IntVal(v)) <= max_len)
+  if '$alloc' in entry:
+    small.append(entry['$alloc'] <= B - 3)
+  s.push()
+  s.add(*small)
+  r = s.check()
+  text += 'exact query with small-size constraints: %s\n' % r
+  if r == z3.sat:
+    return s.model(), text + 'model is exact (satisfies every quantified hypothesis)\n'
+  s.pop()
+  s2 = z3.Solver()
+  s2.set('timeout', 120000)
+  for h in ob.hyps:
+    s2.add(bounded_instances(h, B, True))
+  s2.add(bounded_instances(ob.goal, B, False))
+  s2.add(*small)
+  r = s2.check()
+  text += 'bounded instantiation over [-1,%d], list lengths <= %d: %s\n' % (B, max_len, r)
+  if r == z3.sat:
+    return s2.model(), text + 'candidate model (quantifiers instantiated on a finite range: must be confirmed by replay)\n'
+  return None, text
+
+
 def extract_witness(eng, ob, extra_terms=None):
   """-> (witness dict or None, solver output text)."""
-  bounds = []
-  for name, v in (eng.entry_params or {}).items():
-    if isinstance(v, V) and v.ty.k == 'list':
-      a = (eng.old_stack[0][0] if eng.old_stack else {}).get(eng.ckey(v.ty, 'len'))
-      if a is not None:
-        bounds.append(z3.Select(a, v.t) <= 8)
-  model = None
-  text = ''
-  for extra in (bounds, []):
-    s = z3.Solver()
-    s.set('timeout', 60000)
-    s.add(*ob.hyps)
-    s.add(z3.Not(ob.goal))
-    s.add(*extra)
-    r = s.check()
-    text += 'z3 check (%s size bound): %s\n' % ('with' if extra else 'without', r)
-    if r == z3.sat:
-      model = s.model()
-      break
+  model, text = find_model(eng, ob)
   if model is None:
     return None, text
   d = Dumper(eng, model)
